@@ -6,6 +6,11 @@ ALL = ["C%02d" % i for i in range(1, 21)]
 
 # id -> (level category, engine, technique, level text, level note, design ref)
 CLAIMED = {
+ "C02": ("exploration", "E1 type-expression enumeration with a reference derivation",
+         "bounded exhaustive enumeration of type expression x typedef chain depth x typedef scope x number of grouping uses x leaf/leaf-list x who-states-default/units, each module compiled by the real code and every copy of the leaf compared with a reference RFC 7950 derivation",
+         "11 type families (int32/int64/uint8 ranges with min/max and alternatives, string length+pattern, enumeration and bits with explicit 0 and non-monotonic numbering, decimal64, union with typedef and nested members, leafref, identityref with a base chain and a two-base identity, boolean) x chain depth 0..3 where each level adds its own restriction x 6 typedef scopes (module, ancestor container, grouping-local, submodule, imported by prefix, own-prefix-qualified) x 0..3 uses of the enclosing grouping x leaf/leaf-list x 10 patterns of which level states default and units (incl. the leaf itself). quick: each dimension alone plus all pairs of {depth, scope, uses, who-states}; thorough: the full product (about 15,000 modules). Observed per copy: format and list-ness, the set of range/length/pattern restrictions of all levels, enum and bit numbering, union member formats, leafref target format, identity closure, fraction-digits, default and units (nearest typedef, explicit leaf value wins); all copies must agree. Plus every built-in type as leaf, leaf-list and via typedef, and leafref/identityref/shadowing special shapes.",
+         "trusted: the generator's expectation (c02Build); leafref typedefs imported from another module are outside the family",
+         "DESIGN.md section 7 C02"),
  "C06": ("exploration", "E1 statement/quoting enumeration with the harness' own RFC 7950 6.1.3 evaluator",
          "exhaustive enumeration of statement site x quoting style x text alphabet (and property tables, concatenation counts, comment placements, extension placements, sibling permutations), each module loaded by the real lexer/parser/compiler and every accessor compared with the value the generator wrote",
          "46 text-argument sites on every statement kind x 7 quoting styles (unquoted, single-quoted, double-quoted with each escape, literal line break, concatenation of 2 / mixed quotes / one part per character) x 22 values (quotes, backslashes, ;{}, comment-like text, tab/newline, outer/inner space, keywords, non-ASCII, +, empty); ~90 non-text properties (config incl. inheritance, mandatory, min/max-elements, unbounded, ordered-by, key and unique in 9 spacing/quoting variants, status, defaults, enum values and bit positions with explicit 0 / non-monotonic, fraction-digits, revisions, version, prefix, identity bases, identifiers that start with keywords); concatenations of 2..100 parts with three separators; 8 comment/white-space fillers before every token of a module (dump must be unchanged); extension statements in 4 forms on 19 hosts incl. secondary keywords; all 840 ordered selections of 4 of 7 sibling kinds in 5 parents (textual order kept, uses expanded in place); RFC 7950 6.1.3 indentation stripping; repeated loads give identical dumps.",
